@@ -3,8 +3,8 @@ package main
 func init() {
 	register(&propInfo{
 		ID:          "C09",
-		Explanation: "Decides the structural presence rules: (T.ptr) PointerWrapper.Omit/Size/Append never consult the pointee's Omit and pass the tag through unchanged (a present zero keeps its tag), and PointerWrapper.Read allocates under the nil test and always delegates, returning exactly the delegated Read's results (no early return on empty data); (T.null.omit) for every codec of package null Omit is the negation of the Valid flag and nothing else; (T.null.read) every success return of their Read is dominated by a store of true to Valid or a SetValid call; (T.presence) Descriptor() sets ExplicitPresence for exactly PointerWrapper and the null codecs; (X.clear.mapslot) a map entry without a value resets the slot mapassign returned, so an encoded nil reads back nil even into a map that already holds the key.",
-		NotDecided:  "The map-entry case (zero key + value that encodes to zero bytes reads back nil: map[string]*string{\"\": &\"\"}) – readMapEntry decides 'value absent' by offset < len(data); no sound structural rule separates that from a correct length test without modelling the entry grammar, so it is described in DESIGN.md §5 (D19) and not reported by any check. Value-level round trips.",
+		Explanation: "Decides the structural presence rules: (T.ptr) PointerWrapper.Omit/Size/Append never consult the pointee's Omit and pass the tag through unchanged (a present zero keeps its tag), and PointerWrapper.Read allocates under the nil test and always delegates, returning exactly the delegated Read's results (no early return on empty data); (T.null.omit) for every codec of package null Omit is the negation of the Valid flag and nothing else; (T.null.read) every success return of their Read is dominated by a store of true to Valid or a SetValid call; (T.presence) Descriptor() sets ExplicitPresence for exactly PointerWrapper and the null codecs; (X.clear.mapslot) a map entry without a value resets the slot mapassign returned, so an encoded nil reads back nil even into a map that already holds the key; (X.entry.presence) the branch of readMapEntry that treats the value as absent is controlled by a test of the tag index, not by the remaining length alone (the key is omitted when zero and a present value may have an empty body: D19, fixed); (X.clear.*) decode targets in re-used slices/pools are cleared before a codec reads into them.",
+		NotDecided:  "Value-level round trips; that user-supplied codecs with an empty body behave (A4).",
 		Assumptions: []string{"A5"},
 		Run: func(c *Ctx) {
 			rulePointerWrapper(c)
@@ -12,6 +12,9 @@ func init() {
 			ruleNullValue(c)
 			rulePresenceFlag(c)
 			ruleMapSlot(c)
+			ruleEntryPresence(c)
+			// stale memory in a re-used slot reads an encoded nil back as the old non-nil pointer
+			ruleClearBeforeRead(c)
 		},
 	})
 	register(&propInfo{
@@ -24,6 +27,7 @@ func init() {
 			rulePoolLifetime(c)
 			ruleMapSlot(c)
 			ruleScalarStore(c)
+			ruleSetLen(c)
 			ruleStructUntouched(c)
 			ruleSharedStateInventory(c)
 		},
